@@ -59,6 +59,10 @@ def _check_sig(fn_name, sigs, args):
             continue
         ok = True
         for t, a in zip(sargs, args):
+            if isinstance(t, numba.types.Optional):
+                if a is None:
+                    continue
+                t = t.type
             if isinstance(t, numba.types.Array):
                 if not isinstance(a, np.ndarray):
                     ok = False
@@ -73,7 +77,8 @@ def _check_sig(fn_name, sigs, args):
                     ok = False
                     errs.append("array(float64, %dd, %s) given, %s required" % (a.ndim, lay, t.layout))
                     break
-            elif isinstance(a, np.ndarray) and a.ndim > 0:
+            elif isinstance(t, (numba.types.Float, numba.types.Integer, numba.types.Boolean)) \
+                    and isinstance(a, np.ndarray) and a.ndim > 0:
                 ok = False
                 errs.append("array given where scalar expected")
                 break
